@@ -270,14 +270,14 @@ theorem C10_translation_invariant (a b : Elem) (t : Thr) (margin dx dy : Int) :
   · unfold vOverlapRatio; rw [vO, crdA, crdB]
     cases vOverlap a b <;> cases crd a <;> cases crd b <;>
       simp [bind, Except.bind, Except.map, Box.shift]
-  · unfold isBelow; rw [iH half, crdA, crdB]
-    cases isHOverlapping a b half <;> cases crd a <;> cases crd b <;>
+  · unfold isBelow; rw [iH hDefault, crdA, crdB]
+    cases isHOverlapping a b hDefault <;> cases crd a <;> cases crd b <;>
       simp [bind, Except.bind, Except.map, Box.shift, pure, Except.pure]
     rename_i v ca cb
     cases v <;> simp
     constructor <;> intro h <;> omega
-  · unfold isNextTo; rw [iV half, crdA, crdB]
-    cases isVOverlapping a b half <;> cases crd a <;> cases crd b <;>
+  · unfold isNextTo; rw [iV vDefault, crdA, crdB]
+    cases isVOverlapping a b vDefault <;> cases crd a <;> cases crd b <;>
       simp [bind, Except.bind, Except.map, Box.shift, pure, Except.pure]
     rename_i v ca cb
     cases v <;> simp
@@ -312,6 +312,11 @@ theorem C10_translation_invariant (a b : Elem) (t : Thr) (margin dx dy : Int) :
 
 
 /-! ### transposition -/
+
+/-- the two is-overlapping functions have the same default threshold IN THE CURRENT SOURCE
+    (a statement about the regenerated table: it fails to check if only one default is edited,
+    and then `is_next_to` is no longer `is_below` on the transposed pair) -/
+theorem C10_default_thresholds_agree : vDefault = hDefault := by decide
 
 /-- each vertical variant equals the horizontal variant on the transposed elements, for
     elements compared by their coordinates (DESIGN §9: for two lines with baselines the
@@ -365,8 +370,8 @@ theorem C10_transpose_dual (a b : Elem) (t : Thr) (margin : Int)
   · unfold vOverlapRatio hOverlapRatio; rw [← vO, crdA, crdB]
     cases vOverlap a b <;> cases crd a <;> cases crd b <;>
       simp [bind, Except.bind, Except.map, Box.transpose]
-  · unfold isNextTo isBelow; rw [← iV half, crdA, crdB]
-    cases isVOverlapping a b half <;> cases crd a <;> cases crd b <;>
+  · unfold isNextTo isBelow; rw [← C10_default_thresholds_agree, ← iV vDefault, crdA, crdB]
+    cases isVOverlapping a b vDefault <;> cases crd a <;> cases crd b <;>
       simp [bind, Except.bind, Except.map, Box.transpose, pure, Except.pure]
   · unfold vDistance hDistance; rw [crdA, crdB]
     cases crd a <;> cases crd b <;> simp [bind, Except.bind, Except.map, Box.transpose, pure, Except.pure]
